@@ -147,7 +147,7 @@ pub fn check(c: &Case) -> CheckResult {
         .class_if(present == 0, "filter:no-criterion"))
 }
 
-fn strategy() -> impl Strategy<Value = Case> {
+pub fn strategy() -> impl Strategy<Value = Case> {
     (
         filter(),
         g::message(g::MsgParams { large: false, pool_ids: true, ..Default::default() }),
